@@ -86,7 +86,25 @@ def _battery(with_modes):
     return out
 
 
-CHECKS = {"quad": check_quad, "mean_photon": check_mean_photon, "reduced": check_reduced}
+def check_marginal(I):
+    """marginal(mode, xvec, phi) against the mixture of Gaussian densities of the rotated quadrature (same moments as quad_expectation)"""
+    st, w, mus, covs = build(I)
+    mode, phi = int(I["mode"]), float(I.get("phi", 0.0))
+    c, s = np.cos(phi), np.sin(phi)
+    a, b = 2 * mode, 2 * mode + 1
+    mi = c * mus[:, a] + s * mus[:, b]
+    vi = c * c * covs[:, a, a] + c * s * (covs[:, a, b] + covs[:, b, a]) + s * s * covs[:, b, b]
+    if np.any(vi <= 1e-9):
+        return None
+    xs = np.linspace(-3, 3, 13)
+    got = np.asarray(st.marginal(mode, xs, phi), dtype=complex)
+    want = sum(w[i] * np.exp(-(xs - mi[i]) ** 2 / (2 * vi[i])) / np.sqrt(2 * np.pi * vi[i]) for i in range(len(w)))
+    if not np.allclose(got, want, atol=1e-9 * (1 + abs(want).max())):
+        return (f"marginal({mode}, x, phi={phi:.3f}) differs from the mixture of the Gaussian densities of x_phi = cos(phi) x + sin(phi) p "
+                f"(max difference {abs(got - want).max():.3g}; component variances of x_phi: {np.round(vi, 4).tolist()})")
+
+
+CHECKS = {"quad": check_quad, "mean_photon": check_mean_photon, "reduced": check_reduced, "marginal": check_marginal}
 
 
 def replay(kind, obligation, I):
